@@ -165,7 +165,7 @@ func (g *Gen) Req(now int64) *t_api.Request {
 	case "ClaimTask", "CompleteTask":
 		tid, ctr := g.taskRef()
 		if k == "ClaimTask" {
-			return &t_api.Request{Kind: t_api.ClaimTask, ClaimTask: &t_api.ClaimTaskRequest{Id: tid, Counter: ctr, ProcessId: g.pick(g.Workers, "w"), Ttl: g.D.Int(0, 3, "ttl") * 1000}}
+			return &t_api.Request{Kind: t_api.ClaimTask, ClaimTask: &t_api.ClaimTaskRequest{Id: tid, Counter: ctr, ProcessId: g.pick(g.Workers, "w"), Ttl: []int{0, 1000, 2000, 3000, 3000, 3600_000}[g.D.Uni(6, "ttl")]}}
 		}
 		return &t_api.Request{Kind: t_api.CompleteTask, CompleteTask: &t_api.CompleteTaskRequest{Id: tid, Counter: ctr}}
 	case "HeartbeatTasks":
